@@ -55,16 +55,23 @@ func runC06(c *Ctx) {
 			continue
 		}
 		f := fan{T: T, consume: fn, signal: strings.TrimPrefix(fn.Name(), "Consume")}
+		nMut, nRo := 0, 0
 		for i := 0; i < st.NumFields(); i++ {
 			if _, isSl := st.Field(i).Type().Underlying().(*types.Slice); !isSl {
 				continue
 			}
 			n := strings.ToLower(st.Field(i).Name())
 			if strings.Contains(n, "mut") {
+				nMut++
 				f.mutF = st.Field(i).Name()
 			} else if strings.Contains(n, "read") {
+				nRo++
 				f.roF = st.Field(i).Name()
 			}
+		}
+		if nMut != 1 || nRo != 1 {
+			// the names do not tell the two lists apart (renamed fields): identify them by what the constructor does
+			f.mutF, f.roF = fanListsByEffectA3(p, p.AllSrcFuncs(fpk), T)
 		}
 		if f.mutF != "" && f.roF != "" {
 			fans = append(fans, f)
@@ -78,14 +85,63 @@ func runC06(c *Ctx) {
 		fn := f.consume
 		payload := fn.Params[len(fn.Params)-1]
 		tag := "[" + f.signal + "] "
-		var sends []ssa.CallInstruction
-		allInstrs(fn, func(in ssa.Instruction) {
-			ci, ok := in.(ssa.CallInstruction)
-			if !ok || !ci.Common().IsInvoke() || ci.Common().Method.Name() != fn.Name() {
-				return
+		// the method itself and the same-package helpers it hands the payload to (a section of the method that was
+		// extracted): a send inside a helper stands, in the method, where the helper is called, under the guards of
+		// that call in addition to its own
+		bodies := fanBodiesA3(fn, payload)
+		bodyOfFn := map[*ssa.Function]*fanBodyA3{}
+		for _, b := range bodies {
+			bodyOfFn[b.fn] = b
+		}
+		payloadIn := func(g *ssa.Function) ssa.Value {
+			if b := bodyOfFn[g]; b != nil {
+				return b.payload
 			}
-			sends = append(sends, ci)
-		})
+			return payload
+		}
+		at := func(in ssa.Instruction) ssa.Instruction {
+			if b := bodyOfFn[in.Parent()]; b != nil && b.call != nil {
+				return b.call.(ssa.Instruction)
+			}
+			return in
+		}
+		allGuards := func(in ssa.Instruction, own []Guard) []Guard {
+			if a := at(in); a != in {
+				return append(append([]Guard{}, own...), guardsOf(a.Block())...)
+			}
+			return own
+		}
+		inLoop := func(in ssa.Instruction) bool {
+			if h, _ := innermostLoop(in.Block()); h != nil {
+				return true
+			}
+			if a := at(in); a != in {
+				h, _ := innermostLoop(a.Block())
+				return h != nil
+			}
+			return false
+		}
+		reach := func(a, b ssa.Instruction) bool {
+			if a.Parent() == b.Parent() {
+				return canReach(a, b, nil)
+			}
+			return canReach(at(a), at(b), nil)
+		}
+		isNotReadOnlyGuard := func(g Guard) bool {
+			v, br := boolOf(g)
+			call, ok := v.(*ssa.Call)
+			return ok && calleeOf(call) != nil && calleeOf(call).Name() == "IsReadOnly" && !br && len(call.Call.Args) == 1 && call.Call.Args[0] == payloadIn(call.Parent())
+		}
+		var sends []ssa.CallInstruction
+		for _, b := range bodies {
+			allInstrs(b.fn, func(in ssa.Instruction) {
+				ci, ok := in.(ssa.CallInstruction)
+				if !ok || !ci.Common().IsInvoke() || ci.Common().Method.Name() != fn.Name() {
+					return
+				}
+				sends = append(sends, ci)
+			})
+		}
 		listOf := func(ci ssa.CallInstruction) string {
 			for v := range backSlice(ci.Common().Value) {
 				if fa, ok := v.(*ssa.FieldAddr); ok && namedOf(fa.X.Type()) == f.T {
@@ -100,7 +156,7 @@ func runC06(c *Ctx) {
 				return false, nil
 			}
 			cf := staticCalleeFn(call)
-			if cf == nil || cf.Pkg == nil || cf.Pkg.Pkg.Path() != pkgFanout || len(call.Call.Args) != 1 || call.Call.Args[0] != ssa.Value(payload) {
+			if cf == nil || cf.Pkg == nil || cf.Pkg.Pkg.Path() != pkgFanout || len(call.Call.Args) != 1 || call.Call.Args[0] != payloadIn(call.Parent()) {
 				return false, nil
 			}
 			return true, cf
@@ -115,7 +171,7 @@ func runC06(c *Ctx) {
 				mutSends = append(mutSends, s)
 				// the payload argument may be chosen on the way to the call (`x := payload; if shared { x = clone }`):
 				// every alternative is judged under the conditions that select it
-				hdr, _ := innermostLoop(s.Block())
+				looped := inLoop(s)
 				origHere := false
 				for _, alt := range valueAlternativesA3(arg, s.Block()) {
 					if ok, cf := isClone(alt.v); ok {
@@ -123,29 +179,28 @@ func runC06(c *Ctx) {
 						c.OK(tag+"mutating consumer receives a clone", p.Pos(s.Pos()), "argument is clone(payload)")
 						continue
 					}
-					if alt.v == ssa.Value(payload) {
+					if alt.v == payloadIn(s.Parent()) {
 						if !origHere {
 							origToMutable++ // counted per call site, not per way of choosing the argument
 						}
 						origHere = true
 						gEmpty, gMutable := false, false
-						for _, g := range alt.guards {
+						for _, g := range allGuards(s, alt.guards) {
 							if lenIsZeroA3(g, f.T, f.roF) {
 								gEmpty = true
 							}
-							v, br := boolOf(g)
-							if call, ok := v.(*ssa.Call); ok && calleeOf(call) != nil && calleeOf(call).Name() == "IsReadOnly" && !br && call.Call.Args[0] == ssa.Value(payload) {
+							if isNotReadOnlyGuard(g) {
 								gMutable = true
 							}
 						}
-						c.Check(hdr == nil && gEmpty && gMutable, tag+"original payload reaches a mutating consumer only when nothing is shared", p.Pos(s.Pos()), "outside loops, under len(readonly)==0 && !IsReadOnly()", fmt.Sprintf("in loop=%v, guarded by len(readonly)==0=%v, guarded by !IsReadOnly()=%v: a mutating consumer can change data another consumer (or the caller) still reads", hdr != nil, gEmpty, gMutable))
+						c.Check(!looped && gEmpty && gMutable, tag+"original payload reaches a mutating consumer only when nothing is shared", p.Pos(s.Pos()), "outside loops, under len(readonly)==0 && !IsReadOnly()", fmt.Sprintf("in loop=%v, guarded by len(readonly)==0=%v, guarded by !IsReadOnly()=%v: a mutating consumer can change data another consumer (or the caller) still reads", looped, gEmpty, gMutable))
 						continue
 					}
 					c.Bad(tag+"mutating consumer receives clone or original", p.Pos(s.Pos()), "payload argument is neither clone(payload) nor the incoming payload")
 				}
 			case f.roF:
 				roSends = append(roSends, s)
-				c.Check(arg == ssa.Value(payload), tag+"read-only consumer receives the incoming payload", p.Pos(s.Pos()), "incoming payload", "a read-only consumer is sent something other than the incoming payload")
+				c.Check(arg == payloadIn(s.Parent()), tag+"read-only consumer receives the incoming payload", p.Pos(s.Pos()), "incoming payload", "a read-only consumer is sent something other than the incoming payload")
 			default:
 				c.Undecided(tag+"send to a consumer of unknown list", p.Pos(s.Pos()), "receiver does not come from the mutable or readonly list")
 			}
@@ -175,36 +230,36 @@ func runC06(c *Ctx) {
 
 		// R3 MarkReadOnly
 		c.Rule("R3", "ORD+GATE", "MarkReadOnly on the payload lies after every send to a mutating consumer and before every send to a read-only consumer, outside loops, skipped only under len(readonly) ≤ 1 or payload already read-only", 4)
-		marks := callsNamed(fn, func(g *types.Func) bool { return g.Name() == "MarkReadOnly" })
-		if len(marks) != 1 || marks[0].Common().Args[0] != ssa.Value(payload) {
+		var marks []ssa.CallInstruction
+		for _, b := range bodies {
+			marks = append(marks, callsNamed(b.fn, func(g *types.Func) bool { return g.Name() == "MarkReadOnly" })...)
+		}
+		if len(marks) != 1 || marks[0].Common().Args[0] != payloadIn(marks[0].Parent()) {
 			c.Bad(tag+"payload shared by read-only consumers is marked read-only", p.Pos(fn.Pos()), fmt.Sprintf("%d MarkReadOnly calls on the payload", len(marks)))
 		} else {
 			m := marks[0]
 			okOrd := true
 			for _, s := range mutSends {
-				if canReach(m, s, nil) {
+				if reach(m, s) {
 					okOrd = false
 				}
 			}
 			for _, s := range roSends {
-				if !canReach(m, s, nil) || canReach(s, m, nil) {
+				if !reach(m, s) || reach(s, m) {
 					okOrd = false
 				}
 			}
-			hdr, _ := innermostLoop(m.Block())
+			markLooped := inLoop(m)
 			okGuards := true
 			var why []string
-			for _, g := range guardsOf(m.Block()) {
+			for _, g := range allGuards(m, guardsOf(m.Block())) {
 				good := false
-				if op, x, y, ok := cmpOf(g); ok {
-					if k, isC := constInt(y); isC && isLenOfField(x, f.T, f.roF) {
-						if (op == token.GTR && (k == 0 || k == 1)) || (op == token.GEQ && (k == 1 || k == 2)) || (op == token.NEQ && k == 0) {
-							good = true
-						}
+				if op, k, ok := lenCmpA3(g, f.T, f.roF); ok { // len on either side of the comparison
+					if (op == token.GTR && (k == 0 || k == 1)) || (op == token.GEQ && (k == 1 || k == 2)) || (op == token.NEQ && k == 0) {
+						good = true
 					}
 				}
-				v, br := boolOf(g)
-				if call, ok := v.(*ssa.Call); ok && calleeOf(call) != nil && calleeOf(call).Name() == "IsReadOnly" && !br {
+				if isNotReadOnlyGuard(g) {
 					good = true
 				}
 				if !good {
@@ -212,7 +267,7 @@ func runC06(c *Ctx) {
 					why = append(why, fmt.Sprintf("extra guard at %s", p.Pos(g.If.Pos())))
 				}
 			}
-			c.Check(okOrd && hdr == nil && okGuards, tag+"payload shared by read-only consumers is marked read-only", p.Pos(m.Pos()), "after mutable sends, before read-only sends, skipped only when not shared / already read-only", fmt.Sprintf("ordering ok=%v, outside loop=%v, guards ok=%v %v", okOrd, hdr == nil, okGuards, why))
+			c.Check(okOrd && !markLooped && okGuards, tag+"payload shared by read-only consumers is marked read-only", p.Pos(m.Pos()), "after mutable sends, before read-only sends, skipped only when not shared / already read-only", fmt.Sprintf("ordering ok=%v, outside loop=%v, guards ok=%v %v", okOrd, !markLooped, okGuards, why))
 		}
 
 		// R4 everyone is called; aggregate
@@ -224,6 +279,16 @@ func runC06(c *Ctx) {
 			sl := backSlice(resultsOf(rs[0])[0])
 			all := true
 			for _, s := range sends {
+				if a := at(s); a != ssa.Instruction(s) {
+					// a send inside a helper: its result reaches the helper's single returned value, and the helper's
+					// result reaches the method's
+					hv, isV := a.(ssa.Value)
+					hrs := returnsOf(s.Parent())
+					if !isV || !sl[hv] || len(hrs) != 1 || len(resultsOf(hrs[0])) != 1 || !backSlice(resultsOf(hrs[0])[0])[s.(ssa.Value)] {
+						all = false
+					}
+					continue
+				}
 				if !sl[s.(ssa.Value)] {
 					all = false
 				}
@@ -245,7 +310,7 @@ func runC06(c *Ctx) {
 				// the remaining element: a non-loop send whose receiver index is len-1
 				rest := false
 				for _, t := range mutSends {
-					if h, _ := innermostLoop(t.Block()); h != nil {
+					if inLoop(t) {
 						continue
 					}
 					for v := range backSlice(t.Common().Value) {
@@ -268,7 +333,7 @@ func runC06(c *Ctx) {
 		// on complementary branches
 		nonLoop := 0
 		for _, t := range mutSends {
-			if h, _ := innermostLoop(t.Block()); h == nil {
+			if !inLoop(t) {
 				nonLoop++
 			}
 		}
